@@ -23,7 +23,7 @@ import os
 from typing import Dict, List, Optional, Tuple
 
 from ..grammar import LEGAL_BRACKET_SETS, DialectGraph, Grammar, keyword_of, load_grammar
-from ..index import AnalysisError, Repo, call_name
+from ..index import AnalysisError, Repo, call_name, norm
 
 SELFTEST_NEEDS_FILES = True
 
@@ -338,6 +338,8 @@ def run(chk) -> None:
 
     # ---- R29c: a referenced segment class must be matchable ----------------------------
     _r29c(chk, repo, g, table)
+    # ---- R29d: a dialect module changes only its own dialect object -------------------
+    _r29d(chk, repo)
 
     # ---- R29a -----------------------------------------------------------------------
     counts: Dict[str, int] = {}
@@ -381,6 +383,56 @@ def run(chk) -> None:
     chk.exhaustive = True
     chk.extra["unresolved_references"] = len(unresolved)
     chk._c29_unresolved = unresolved  # for the findings dump
+
+
+_SET_MUTATORS = {"add", "update", "discard", "remove", "clear", "difference_update", "intersection_update", "symmetric_difference_update", "pop", "extend", "append", "insert"}
+_DIALECT_MUTATORS = {"replace", "add", "patch_lexer_matchers", "insert_lexer_matchers", "set_lexer_matchers", "update_keywords_set_from_multiline_string", "update_bracket_sets", "add_update_segments"}
+
+
+def _r29d(chk, repo) -> None:
+    """Raw dialect objects are process-wide singletons (load_raw_dialect caches the module).  A dialect
+    module that edits the object of ANOTHER dialect (its parent, say) changes that dialect for every later
+    user in the process: which keywords ansi has then depends on whether teradata was imported before --
+    a reference that resolves in a fresh process dangles after another dialect has been loaded."""
+    chk.rule("R29d", "a dialect module mutates only the dialect object it creates itself (copy_as / Dialect(...)); dialect objects obtained with load_raw_dialect are read, never changed")
+    n_mod = n_calls = 0
+    for m in repo.iter_modules(DIALECT_DIR + "/"):
+        base = m.relpath.split("/")[-1]
+        if not base.startswith("dialect_") or base.endswith("_keywords.py"):
+            continue
+        own, foreign = set(), set()
+        for st in m.tree.body:
+            if isinstance(st, ast.Assign) and len(st.targets) == 1 and isinstance(st.targets[0], ast.Name) and isinstance(st.value, ast.Call):
+                fn = call_name(st.value)
+                if fn.endswith(".copy_as") or fn.split(".")[-1] == "Dialect":
+                    own.add(st.targets[0].id)
+                elif fn.split(".")[-1] == "load_raw_dialect":
+                    foreign.add(st.targets[0].id)
+        if not own:
+            continue
+        n_mod += 1
+        for c in ast.walk(m.tree):
+            if not (isinstance(c, ast.Call) and isinstance(c.func, ast.Attribute)):
+                continue
+            root, chain = c.func.value, [c.func.attr]
+            while isinstance(root, (ast.Attribute, ast.Call, ast.Subscript)):
+                if isinstance(root, ast.Attribute):
+                    chain.append(root.attr)
+                root = root.func if isinstance(root, ast.Call) else root.value
+            if not (isinstance(root, ast.Name) and root.id in foreign - own):
+                continue
+            n_calls += 1
+            mutates = (chain[0] in _SET_MUTATORS and ("sets" in chain or "bracket_sets" in chain)) or (len(chain) == 1 and chain[0] in _DIALECT_MUTATORS)
+            chk.require(
+                not mutates, "R29d", c,
+                f"{base} changes the dialect object `{root.id}` that it only loaded (`{norm(c)[:80]}`): raw dialects are shared by the whole process, so every dialect "
+                "that inherits from it later -- and that dialect itself -- loses or gains the entry depending on import order; references that resolve in a fresh "
+                "process then dangle (RuntimeError at parse time)",
+                detail=f"{base}: only its own dialect object is mutated ({root.id}.{'.'.join(reversed(chain))})",
+            )
+    chk.count("R29d.dialect_modules", n_mod)
+    chk.count("R29d.calls_on_loaded_dialects", n_calls)
+    chk.floor("R29d.dialect_modules", 20)
 
 
 def _class_index(repo) -> Dict[str, List[Tuple[object, ast.ClassDef]]]:
@@ -570,6 +622,12 @@ TSQL = "src/sqlfluff/dialects/dialect_tsql.py"
 BQ = "src/sqlfluff/dialects/dialect_bigquery.py"
 
 VARIANTS = [
+    Variant(
+        "teradata-edits-the-shared-ansi-dialect", "src/sqlfluff/dialects/dialect_teradata.py",
+        "teradata_dialect.sets(\"unreserved_keywords\").difference_update(\n",
+        "ansi_dialect.sets(\"unreserved_keywords\").discard(\"SETS\")\nteradata_dialect.sets(\"unreserved_keywords\").difference_update(\n",
+        "R29d", "dialect_teradata.py", "seeded C29-1: importing teradata strips SETS from ansi for the rest of the process",
+    ),
     Variant(
         "tsql-ref-to-raw-class-without-grammar", "src/sqlfluff/dialects/dialect_tsql.py",
         "            \"REMOVE\",\n            \"FILE\",\n            Ref(\"NakedOrQuotedIdentifierGrammar\"),\n",
